@@ -49,6 +49,16 @@ ASSUMPTIONS = [
     "reading of the conservation clause: 'the same after every step' = constant from the first computed state on; equality with the "
     "initial energy is demanded only for a consistent initial acceleration (DESIGN C15)",
     "a step whose solve returns flag False is outside the hypothesis 'minimise': counted (solver_failed_steps), the case stops there",
+    "three library sources of the mass are compared for EVERY quadrature degree (also under-integrated rules with fewer points than element "
+    "nodes): assembled compute_element_masses, Hessian of compute_output_kinetic_energy, and beta dt^2 x d2/dUP2 of compute_algorithmic_energy "
+    "(the strain part does not depend on UPredicted)",
+    "under-integrated stepping class (degree 2(p-1) and 2p-1): the consistent mass may be singular; no consistent initial acceleration is "
+    "formed there and the positive-definiteness guard is skipped -- the step only needs K + M/(beta dt^2) SPD (essential BCs on an edge or a "
+    "random subset), momentum and formula clauses as everywhere",
+    "state is handed to predict/correct as writeable numpy arrays on even steps and as jax arrays on odd steps; the harness keeps its own deep "
+    "copies, requires every operand to come back unchanged, evaluates the formulas against the copies and repeats steps 0, 1 and every 7th from "
+    "the very arrays handed in the first time (bit-for-bit). compute_algorithmic_energy is the one un-jitted member; with numpy operands it is "
+    "called through jax.jit (un-jitted it indexes its argument with traced indices, which numpy arrays cannot serve: a JAX limitation)",
     "reference time step dt* = h/p sqrt(rho / (kappa + 4/3 mu)) (P-wave modulus, so nearly incompressible materials get the right omega_max); "
     "finite-strain materials and every pressure-projection configuration use dt <= 2 dt* (the explicit predictor otherwise inverts elements "
     "and the energy is undefined: observed as a NaN gradient, counted under solver_failed_steps)",
@@ -65,12 +75,17 @@ REQUIRED = {
             "class:axisym_momentum": 1, "class:axisym_trapezoid_energy": 2, "class:axisym_rigid_translation": 1, "class:pp_momentum": 3,
             "class:axisym_pp_momentum": 2,
             "steps:axisym": 60, "steps:plane_pp0": 20, "steps:plane_pp1": 10, "steps:axisym_pp0": 10, "steps:axisym_pp1": 10,
-            "axisym_energy_steps": 30, "option_rigid_steps": 30, "axisym_mass_sum_checks": 12},
+            "axisym_energy_steps": 30, "option_rigid_steps": 30, "axisym_mass_sum_checks": 12,
+            "class:underintegrated_momentum": 3, "underintegrated_steps": 30, "mass_triple_checks": 20, "mass_triple_checks_underintegrated": 6,
+            "numpy_typed_steps": 150, "jax_typed_steps": 150, "repeated_steps": 50, "repeated_steps:numpy": 20, "repeated_steps:jax": 20,
+            "operand_checks": 1500, "function_operand_checks": 100},
     "quick": {},
     "thorough": {"steps_checked": 45000, "energy_steps_arbitrary": 12000, "energy_steps_consistent": 12000, "rigid_steps": 8000,
                  "mass_sum_checks": 2000, "long_histories_200": 80, "order:4": 10, "nonlinear_material_steps": 3000,
                  "steps:axisym": 2500, "steps:plane_pp0": 250, "steps:plane_pp1": 250, "steps:axisym_pp0": 150, "steps:axisym_pp1": 150,
-                 "axisym_energy_steps": 1500, "option_rigid_steps": 800, "axisym_mass_sum_checks": 400},
+                 "axisym_energy_steps": 1500, "option_rigid_steps": 800, "axisym_mass_sum_checks": 400,
+                 "underintegrated_steps": 500, "numpy_typed_steps": 15000, "jax_typed_steps": 15000, "repeated_steps": 4000,
+                 "mass_triple_checks": 1500, "mass_triple_checks_underintegrated": 200},
 }
 WATCHDOG_S = {"quick": 2400, "thorough": 5 * 3600}
 MAX_VACUOUS_FRACTION = 0.15
@@ -106,6 +121,7 @@ def _case(seed, cls, i, **kw):
     mode = kw.pop("mode", "plane strain")
     pp = kw.pop("pp", None)
     incompressible = kw.pop("incompressible", False)
+    underint = kw.pop("underint", None)      # "a": the library's customary degree 2(p-1) rule, "b": degree 2p-1
     axisym = mode == "axisymmetric"
     if pp is not None and order < 2:
         order = 2      # on linear triangles J is constant per element: the projection would be the identity
@@ -117,6 +133,10 @@ def _case(seed, cls, i, **kw):
     q = int(rng.choice(cfg.QUAD_LOW[order] if low_quad else cfg.QUAD_ADEQUATE[order]))
     if not low_quad:
         q = max(q, 2 * order + (1 if axisym else 0))   # axisymmetric mass integrates r N_a N_b (degree 2p+1)   # the consistent mass integrates N_a N_b (degree 2p): below that it is singular for p >= 3
+    if underint:
+        q = max(1, 2 * (order - 1)) if underint == "a" else 2 * order - 1
+        ms.pop("bubble", None)
+        kw["underintegrated"] = True
     if ms.get("bubble"):
         q = max(q, 6)   # the cubic bubble function squared has degree 6; below that the consistent mass is singular / indefinite
     c = {"cls": cls, "group": "%s%d" % (cls, i), "seed": derive_seed(seed, PROPERTY, cls, i, "run"),
@@ -175,6 +195,12 @@ def build_cases(tier, seed):
             ("axisym_pp_momentum", "neo_coupled", "random", 2, "delaunay", "random", "random", "arbitrary", AX, 0, False),
             ("axisym_pp_momentum", "lin_linear", "random", 2, "graded", "edge", "ramp", "arbitrary", AX, 1, True),
         ]
+        # under-integrated function spaces (the library's customary 2(p-1) rule, and 2p-1): the consistent mass may be singular there;
+        # the step only needs K + M/(beta dt^2) to be SPD, and the momentum clause is about the mass the library itself reports
+        for i, (m, o, k, ui, bc, prm) in enumerate([("lin_linear", 1, "delaunay", "a", "edge", "random"), ("neo_adagio", 2, "graded", "a", "random", "trapezoid"),
+                                                     ("lin_linear", 3, "delaunay", "a", "edge", "corner_a"), ("lin_linear", 2, "hole", "b", "random", "random")]):
+            cases.append(_case(seed, "underintegrated_momentum", i, matname=m, params=prm, order=o, meshkind=k, bc=bc, dt_kind="random",
+                               init="arbitrary", nsteps=ns, ubc_nonzero=False, incremental=False, tr="large", underint=ui))
         seen = {}
         for (cls, m, prm, o, k, bc, dk, init, mode, pp, inc) in plan:
             i = seen.get(cls, 0)
@@ -228,6 +254,12 @@ def build_cases(tier, seed):
         cases.append(_case(seed, "pp_momentum", i, matname=m, params=["random", "trapezoid", "corner_a"][i % 3], order=[2, 3, 2, 2][i % 4],
                            meshkind=kinds[i % 6], bc=bck[i % 4], dt_kind=dtk[(i + 1) % 4], init=["arbitrary", "arbitrary", "rigid"][i % 3], nsteps=30,
                            ubc_nonzero=(i % 7 == 3), incremental=(i % 5 == 4), tr=["large", "default"][i % 2], pp=i % 2, incompressible=(i % 4 < 2)))
+    for i in range(24):
+        m = ["lin_linear", "neo_adagio", "lin_linear", "gent"][i % 4]
+        cases.append(_case(seed, "underintegrated_momentum", i, matname=m, params=["random", "trapezoid", "corner_a"][i % 3], order=[1, 2, 3, 2, 4, 1][i % 6],
+                           meshkind=["delaunay", "graded", "hole", "shear"][i % 4], bc=["edge", "random"][i % 2], dt_kind=dtk[i % 4], init="arbitrary",
+                           nsteps=40, ubc_nonzero=(i % 5 == 1), incremental=False, tr=["large", "default"][i % 2], underint=["a", "a", "b"][i % 3],
+                           mode=["plane strain", "plane strain", "plane strain", "axisymmetric"][i % 4]))
     for i in range(16):
         m = ["neo_coupled", "lin_linear", "gent", "neo_adagio"][i % 4]
         cases.append(_case(seed, "axisym_pp_momentum", i, matname=m, params=["random", "corner_b"][i % 2], order=[2, 3][i % 2],
@@ -270,7 +302,7 @@ def _max_grad(U, conns, shapeGrads):
     return float(onp.abs(G).max())
 
 
-def _check_mass(res, dyn, fs, mesh, rho, quad_degree, order, label, axisym=False):
+def _check_mass(res, dyn, fs, mesh, rho, quad_degree, order, label, axisym=False, beta=0.25):
     """mass clauses on one function space; returns (M_full numpy, area).  Axisymmetric function space: the measure is
     2 pi r dA, so sum M = rho * int 2 pi r dA = rho * 2 pi * sum_e A_e * r_centroid(e)  (exact for straight-sided triangles)."""
     import jax
@@ -289,6 +321,18 @@ def _check_mass(res, dyn, fs, mesh, rho, quad_degree, order, label, axisym=False
     mmax = float(onp.max(onp.abs(Mh)))
     res.bound("mass_assembled_vs_hessian_of_kinetic_energy", float(onp.max(onp.abs(M - Mh))), TOL_MASS_MAT * mmax, {"where": label})
     res.count("mass_hessian_vs_assembled_checks")
+    # third library source: the inertial part of the algorithmic energy.  E_alg(U, UP) = SE(U) + KE(U - UP)/(beta dt^2), so
+    # d2 E_alg / dUP2 = M / (beta dt^2) whatever the strain energy is.  Must be the same matrix for EVERY quadrature degree.
+    dt_m = 0.5
+    st_m = dyn.compute_initial_state()
+    zero = jnp.zeros((nN, 2))
+    Ma = onp.asarray(jax.jit(jax.hessian(lambda UP: dyn.compute_algorithmic_energy(zero, UP, st_m, dt_m)))(zero)).reshape(2 * nN, 2 * nN)
+    Ma = Ma * (beta * dt_m * dt_m)
+    res.bound("mass_of_algorithmic_energy_vs_assembled", float(onp.max(onp.abs(Ma - M))), TOL_MASS_MAT * mmax,
+              {"where": label, "order": order, "quad": quad_degree, "quad_points": int(len(fs.quadratureRule)), "element_nodes": int(conns.shape[1])})
+    res.count("mass_triple_checks")
+    if len(fs.quadratureRule) < conns.shape[1]:
+        res.count("mass_triple_checks_underintegrated")
     res.bound("mass_symmetric", float(onp.max(onp.abs(M - M.T))), TOL_MASS_MAT * mmax, {"where": label})
     want = rho * area
     if axisym:
@@ -339,7 +383,8 @@ def _run_mass_case(case, res):
         with contextlib.redirect_stdout(io.StringIO()):
             m = cfg.build_material(mat)
         dyn = Mechanics.create_dynamics_functions(fs, "axisymmetric" if axisym else "plane strain", m, Mechanics.NewmarkParameters(gamma=0.5, beta=0.25))
-        _check_mass(res, dyn, fs, mesh, rho, q, order, "mesh%d:%s:o%d:q%d%s" % (k, kind, order, q, ":axisym" if axisym else ""), axisym=axisym)
+        _check_mass(res, dyn, fs, mesh, rho, q, order, "mesh%d:%s:o%d:q%d%s" % (k, kind, order, q, ":axisym" if axisym else ""), axisym=axisym,
+                    beta=0.25)
         res.count("mass_meshes")
         res.count("mass_order:%d" % order)
         res.count("mass_low_quadrature" if low else "mass_adequate_quadrature")
@@ -424,13 +469,40 @@ def run_case(case):
                                               pressureProjectionDegree=pp)
     st = dyn.compute_initial_state()
 
+    # ------------------------------------------------------------ no dynamics function may overwrite the arrays it is handed
+    if order <= 2:
+        probe = rng_of(case["seed"] ^ 0x5a5a).standard_normal((3, nN, 2)) * 1e-3
+        for as_np in (True, False):
+            mk = (lambda a: onp.array(a, copy=True)) if as_np else (lambda a: jnp.array(a))
+            a0, a1, a2, s0 = mk(probe[0]), mk(probe[1]), mk(probe[2]), mk(onp.asarray(st))
+            # compute_algorithmic_energy is the one member the factory does not jit; un-jitted it indexes its argument with traced
+            # indices, which plain numpy arrays do not support (JAX limitation, not a statement of the property) -> called through jit
+            ealg = jax.jit(dyn.compute_algorithmic_energy)
+            calls = [("compute_algorithmic_energy", lambda: ealg(a0, a1, s0, 0.37)),
+                     ("compute_output_kinetic_energy", lambda: dyn.compute_output_kinetic_energy(a2)),
+                     ("compute_output_strain_energy", lambda: dyn.compute_output_strain_energy(a0, s0, 0.37)),
+                     ("compute_updated_internal_variables", lambda: dyn.compute_updated_internal_variables(a0, s0, 0.37)),
+                     ("compute_element_hessians", lambda: dyn.compute_element_hessians(a0, a1, s0, 0.37)),
+                     ("compute_output_energy_densities_and_stresses", lambda: dyn.compute_output_energy_densities_and_stresses(a0, s0, 0.37))]
+            for name, fn in calls:
+                fn()
+                okk = (onp.array_equal(onp.asarray(a0), probe[0]) and onp.array_equal(onp.asarray(a1), probe[1])
+                       and onp.array_equal(onp.asarray(a2), probe[2]) and onp.array_equal(onp.asarray(s0), onp.asarray(st)))
+                res.expect("operands_unchanged", okk, {"function": name, "array_type": "numpy" if as_np else "jax"})
+                res.count("operand_checks")
+                res.count("function_operand_checks")
+
     # ------------------------------------------------------------ mass (all dofs), restricted to the unknowns
-    M_full, area = _check_mass(res, dyn, fs, mesh, rho, case["quad"], order, "stepping_config", axisym=axisym)
+    M_full, area = _check_mass(res, dyn, fs, mesh, rho, case["quad"], order, "stepping_config", axisym=axisym, beta=beta)
     Mel = dyn.compute_element_masses()
     M_uu = onp.asarray(SparseMatrixAssembler.assemble_sparse_stiffness_matrix(Mel, mesh.conns, dm).toarray())
     res.bound("mass_assembled_with_bcs", float(onp.max(onp.abs(M_uu - M_full[onp.ix_(unk, unk)]))), TOL_MASS_MAT * float(onp.max(onp.abs(M_full))))
     evM = onp.linalg.eigvalsh(0.5 * (M_uu + M_uu.T))
-    if not evM.min() > 1e-10 * evM.max():
+    under = bool(case.get("underintegrated"))
+    if under:
+        res.count("underintegrated_configs")
+        res.count("underintegrated_mass_" + ("singular" if not evM.min() > 1e-10 * evM.max() else "regular"))
+    if not under and not evM.min() > 1e-10 * evM.max():
         # hypothesis of a well-posed initial-value problem (unique accelerations, energy a norm) not met: quadrature too low for this element
         res.count("mass_not_positive_definite_stepping_configs")
         res.vacuous("consistent mass not positive definite with quadrature degree %d on this element (min/max eigenvalue %.2e)"
@@ -548,21 +620,51 @@ def run_case(case):
     dt_changes = 0
     for n, dt in enumerate(dts):
         dt = float(dt)
-        U_old, V_old, A_old = Uu.copy(), Vu.copy(), Au.copy()
-        UuP, VuP = dyn.predict(jnp.array(U_old), jnp.array(V_old), jnp.array(A_old), dt)
-        # admissible solver settings, scaled to the problem: |grad| < tol with tol = 1e-12 x gross force scale
+        U_old, V_old, A_old = Uu.copy(), Vu.copy(), Au.copy()       # the harness's own deep copies of the time-n state
+        as_numpy = (n % 2 == 0)     # state handed to the library as writeable numpy arrays on even steps, as jax arrays on odd steps
         absKalg = absKalg0 + onp.abs(M_uu) / (beta * dt * dt)
-        fscale = float(onp.linalg.norm(absKalg @ (onp.abs(onp.asarray(UuP)) + onp.abs(U_old)))) + 1e-300
-        tol = SOLVER_REL_TOL * fscale
         stepsize = float(onp.linalg.norm(U_old) + dt * onp.linalg.norm(V_old) + dt * dt * onp.linalg.norm(A_old)) + 1e-300
-        tr_size = 2.0 if case.get("tr") == "default" else 1e3 * stepsize
-        settings = EquationSolver.get_settings(tol=tol, max_trust_iters=300, max_cg_iters=60, min_tr_size=1e-14 * min(stepsize, 1.0),
-                                               tr_size=tr_size, use_incremental_objective=bool(case.get("incremental")), debug_info=False)
-        p = Objective.param_index_update(p, 4, jnp.array([dt, 0.0]))
-        p = Objective.param_index_update(p, 5, UuP)
-        Uu_new, ok = EquationSolver.nonlinear_equation_solve(obj, UuP, p, settings, useWarmStart=False)
-        Vu_new, Au_new = dyn.correct(Uu_new - UuP, VuP, jnp.array(A_old), dt)
-        Uu_new, Vu_new, Au_new = onp.asarray(Uu_new), onp.asarray(Vu_new), onp.asarray(Au_new)
+        wrap = (lambda a: onp.array(a, dtype=float, copy=True)) if as_numpy else (lambda a: jnp.array(onp.asarray(a)))
+
+        def do_step(U_in, V_in, A_in):
+            """the library's recipe on the arrays handed in; returns the new state, the flag, the solver tolerance and whether
+            every array passed to predict / correct came back unchanged"""
+            nonlocal p
+            UuP_, VuP_ = dyn.predict(U_in, V_in, A_in, dt)
+            UP_keep, VP_keep = onp.array(UuP_), onp.array(VuP_)
+            same = [onp.array_equal(onp.asarray(U_in), U_old), onp.array_equal(onp.asarray(V_in), V_old), onp.array_equal(onp.asarray(A_in), A_old)]
+            # admissible solver settings, scaled to the problem: |grad| < tol with tol = 1e-12 x gross force scale
+            fscale_ = float(onp.linalg.norm(absKalg @ (onp.abs(UP_keep) + onp.abs(U_old)))) + 1e-300
+            tol_ = SOLVER_REL_TOL * fscale_
+            tr_size = 2.0 if case.get("tr") == "default" else 1e3 * stepsize
+            settings = EquationSolver.get_settings(tol=tol_, max_trust_iters=300, max_cg_iters=60, min_tr_size=1e-14 * min(stepsize, 1.0),
+                                                   tr_size=tr_size, use_incremental_objective=bool(case.get("incremental")), debug_info=False)
+            p = Objective.param_index_update(p, 4, jnp.array([dt, 0.0]))
+            p = Objective.param_index_update(p, 5, jnp.array(UP_keep))
+            Un_, ok_ = EquationSolver.nonlinear_equation_solve(obj, jnp.array(UP_keep), p, settings, useWarmStart=False)
+            Un_ = onp.array(Un_)
+            corr_keep = Un_ - UP_keep
+            c_in, vp_in, a_in = wrap(corr_keep), wrap(VP_keep), wrap(A_old)
+            Vn_, An_ = dyn.correct(c_in, vp_in, a_in, dt)
+            Vn_, An_ = onp.array(Vn_), onp.array(An_)
+            same += [onp.array_equal(onp.asarray(c_in), corr_keep), onp.array_equal(onp.asarray(vp_in), VP_keep), onp.array_equal(onp.asarray(a_in), A_old)]
+            return Un_, Vn_, An_, bool(ok_), tol_, UP_keep, same
+
+        U_in, V_in, A_in = wrap(U_old), wrap(V_old), wrap(A_old)
+        Uu_new, Vu_new, Au_new, ok, tol, UuP, same = do_step(U_in, V_in, A_in)
+        names = ["predict:U", "predict:V", "predict:A", "correct:UCorrection", "correct:V", "correct:A"]
+        res.expect("operands_unchanged", all(same), {"step": n, "array_type": "numpy" if as_numpy else "jax",
+                                                     "overwritten": [nm for nm, ok_ in zip(names, same) if not ok_]})
+        res.count("operand_checks", len(same))
+        res.count("numpy_typed_steps" if as_numpy else "jax_typed_steps")
+        if n in (0, 1) or n % 7 == 3:
+            # take the step again from the very arrays handed in the first time: must reproduce bit for bit
+            U2, V2, A2, ok2, _, _, _ = do_step(U_in, V_in, A_in)
+            res.expect("repeated_step_reproduces", bool(ok2 == ok and onp.array_equal(U2, Uu_new) and onp.array_equal(V2, Vu_new) and onp.array_equal(A2, Au_new)),
+                       {"step": n, "array_type": "numpy" if as_numpy else "jax",
+                        "dU": float(onp.max(onp.abs(U2 - Uu_new))), "dV": float(onp.max(onp.abs(V2 - Vu_new))), "dA": float(onp.max(onp.abs(A2 - Au_new)))})
+            res.count("repeated_steps")
+            res.count("repeated_steps:" + ("numpy" if as_numpy else "jax"))
         t += dt
         res.count("steps_attempted")
         if not (onp.all(onp.isfinite(Uu_new)) and onp.all(onp.isfinite(Vu_new)) and onp.all(onp.isfinite(Au_new))):
@@ -594,6 +696,8 @@ def run_case(case):
         res.count("momentum_checks")
         res.count("steps_checked")
         res.count("steps:" + opt)
+        if under:
+            res.count("underintegrated_steps")
         if not linear:
             res.count("nonlinear_material_steps")
         if n > 0 and abs(dt - float(dts[n - 1])) > 1e-3 * dt:
